@@ -207,6 +207,7 @@ assert_eq!(
 */
 
 #![allow(clippy::inconsistent_digit_grouping)]
+#![allow(unexpected_cfgs)]
 #![allow(clippy::unusual_byte_groupings)]
 
 #[macro_use]
